@@ -65,6 +65,36 @@ class Func:
         return out
 
 
+_REF_CACHE: Dict[str, Optional[ast.Module]] = {}
+
+
+def _normalised_reference(modname: str) -> Optional[ast.Module]:
+    """the reference copy of a module (sa/reference) after the same normalisation as the tree under analysis"""
+    if modname in _REF_CACHE:
+        return copy_module(_REF_CACHE[modname])
+    from . import alpha
+    from .desugar import normalise
+    from .inline import inline_module
+    from .tables import KNOWN_FUNCS
+    p = os.path.join(alpha.REF_DIR, modname + ".py")
+    if not os.path.isfile(p):
+        _REF_CACHE[modname] = None
+        return None
+    t = ast.parse(open(p, encoding="utf-8").read())
+    normalise(t, modname)
+    st: Dict[str, int] = {}
+    inline_module(t, modname, KNOWN_FUNCS, st)
+    if st:
+        normalise(t, modname)
+    _REF_CACHE[modname] = t
+    return copy_module(t)
+
+
+def copy_module(t):
+    import copy as _c
+    return _c.deepcopy(t) if t is not None else None
+
+
 class Repo:
     def __init__(self, root: str, overlay: Optional[Dict[str, str]] = None):
         """overlay: {module file name: replacement source} -- used by the
@@ -97,6 +127,8 @@ class Repo:
             from .desugar import normalise
             from .inline import inline_module
             from .tables import KNOWN_FUNCS
+            from . import alpha
+            nren = alpha.align(tree, fn[:-3])                       # locals renamed back to the reference names (raw shapes)
             for k_, v_ in normalise(tree, fn[:-3]).items():
                 self.desugared[k_] = self.desugared.get(k_, 0) + v_
             before = dict(self.desugared)
@@ -104,6 +136,8 @@ class Repo:
             if self.desugared != before:
                 for k_, v_ in normalise(tree, fn[:-3]).items():
                     self.desugared[k_] = self.desugared.get(k_, 0) + v_
+            nren += alpha.align(tree, fn[:-3], _normalised_reference(fn[:-3]))   # ... and once more on the normalised shapes
+            self.desugared["T0 locals renamed to reference names"] = self.desugared.get("T0 locals renamed to reference names", 0) + nren
             m = Module(fn[:-3], path, f"{PKG}/{fn}", tree, src)
             self.modules[m.name] = m
             self._imports(m)
